@@ -500,24 +500,22 @@ func runC14(p *core.Program, r *core.Report) {
 	// ---------------- FindKey: result is the key of the tuple whose value satisfied fn
 	if fn := c.fn("gogu.FindKey"); fn != nil {
 		pc := c14Desc(p, fn)
-		for _, b := range fn.Blocks {
-			rt, ok := b.Instrs[len(b.Instrs)-1].(*ssa.Return)
-			if !ok {
+		// every way the result is delivered: the zero value, or the key of the entry of
+		// the current iteration on the edge where fn(v) held ("result = k; break ...
+		// return result" and "return k" are the same two alternatives)
+		nKey := 0
+		for _, alt := range returnAlternatives(fn, 0) {
+			if isZeroConst(alt.val) {
 				continue
 			}
-			okR := true
-			n := 0
-			for _, o := range path.Origins(rt.Results[0]) {
-				if isZeroConst(o) {
-					continue
-				}
-				n++
-				if pc.path(o) != "range(m)#1" {
-					okR = false
-				}
+			isKey := pc.path(alt.val) == "range(m)#1"
+			held := boolGuard(fn, alt.blk, func(v ssa.Value) bool { return pc.path(v) == "fn(range(m)#2)" }, true)
+			if isKey && held {
+				nKey++
 			}
-			c.ob("PV2", "gogu.FindKey", "returns the key of the qualifying entry", p.InstrPos(rt), okR && n == 1, "the key returned must be the key of the very entry whose value satisfied fn")
+			c.ob("PV2", "gogu.FindKey", "returns the key of the qualifying entry", p.InstrPos(alt.ret), isKey && held, "the key returned must be the key of the very entry whose value satisfied fn")
 		}
+		c.ob("PV2", "gogu.FindKey", "a qualifying key is returned", c.fpos(fn), nKey >= 1, "no path returns the key of an entry on the edge where fn(v) held")
 		// the assignment edge is fn(v) true
 		okG := false
 		for _, b := range fn.Blocks {
